@@ -31,6 +31,10 @@ Sources ==
     \* a non-const struct with an array-of-const member and a mutable member (const fields as such are not allowed)
     [n |-> "mix", ty |-> <<"label", <<"rec", <<"array", <<"const", <<"int">> >> >>, INT>> >>, const |-> FALSE, where |-> "global"],
     [n |-> "m",   ty |-> INT,                            const |-> FALSE, where |-> "global"],
+    [n |-> "cd",  ty |-> <<"const", <<"dbl">> >>,         const |-> TRUE,  where |-> "global"],      \* const double / const bool and their mutable twins
+    [n |-> "cbo", ty |-> <<"const", <<"bool">> >>,        const |-> TRUE,  where |-> "global"],
+    [n |-> "md",  ty |-> <<"dbl">>,                      const |-> FALSE, where |-> "global"],
+    [n |-> "mb",  ty |-> <<"bool">>,                     const |-> FALSE, where |-> "global"],
     [n |-> "ma",  ty |-> <<"array", INT>>,               const |-> FALSE, where |-> "global"],
     [n |-> "ms",  ty |-> REC,                            const |-> FALSE, where |-> "global"],
     [n |-> "msa", ty |-> <<"array", REC>>,               const |-> FALSE, where |-> "global"],
@@ -47,16 +51,17 @@ Sources ==
     [n |-> "oc3", ty |-> <<"const", <<"int">> >>,         const |-> TRUE,  where |-> "oldtparam"],
     [n |-> "om",  ty |-> INT,                            const |-> FALSE, where |-> "oldtparam"] }
 
+Leaf == {"int", "dbl", "bool"}            \* base types: the prefix rules do not depend on them
 (* type.cpp *)
 RECURSIVE ImplMutable(_)
 ImplMutable(t) == CASE t[1] = "const" -> FALSE
                     [] t[1] = "rec" -> ImplMutable(t[2]) /\ ImplMutable(t[3])
-                    [] t[1] = "int" -> TRUE
+                    [] t[1] \in Leaf -> TRUE
                     [] OTHER -> ImplMutable(t[2])
 RECURSIVE ImplConstant(_)
 ImplConstant(t) == CASE t[1] = "const" -> TRUE
                      [] t[1] = "rec" -> ImplConstant(t[2]) /\ ImplConstant(t[3])
-                     [] t[1] = "int" -> FALSE
+                     [] t[1] \in Leaf -> FALSE
                      [] OTHER -> ImplConstant(t[2])
 RECURSIVE Strip(_)
 Strip(t) == IF t[1] \in {"const", "ref", "label", "range"} THEN Strip(t[2]) ELSE t
@@ -103,7 +108,7 @@ PathConst(L) == CASE L[1] = "id" -> ConstTy(SrcOf(L[2]).ty)
                   [] L[1] = "comma" -> PathConst(L[3])
 ConstTarget(L) == PathConst(L)
 RECURSIVE AnyConst(_)
-AnyConst(t) == t[1] = "const" \/ (t[1] = "rec" /\ (AnyConst(t[2]) \/ AnyConst(t[3]))) \/ (t[1] \notin {"int", "const", "rec"} /\ AnyConst(t[2]))
+AnyConst(t) == t[1] = "const" \/ (t[1] = "rec" /\ (AnyConst(t[2]) \/ AnyConst(t[3]))) \/ (t[1] \notin Leaf \cup {"const", "rec"} /\ AnyConst(t[2]))
 
 (* shapes: int-typed lvalues reachable from a source by indexing / field selection *)
 RECURSIVE PathsOf(_, _)
@@ -123,15 +128,18 @@ Mixed == {<<"cond", a, b>> : a \in Basic, b \in {<<"id", "m">>, <<"id", "l">>, <
          \cup {<<"comma", b, a>> : a \in Basic, b \in {<<"id", "m">>}}
 ScopeOK(L) == \A a \in Roots(L), b \in Roots(L) : SameScope(a, b)
 
-Cases == {[lv |-> L, wf |-> wf, const |-> ConstTarget(L), modifiable |-> ImplModifiable(L), roots |-> Roots(L),
+(* doubles and bools take part with plain assignment only (++, %=, a reference to int are not for them), and not in mixed lvalues *)
+NonInt == {"cd", "cbo", "md", "mb"}
+RawCases == {[lv |-> L, wf |-> wf, const |-> ConstTarget(L), modifiable |-> ImplModifiable(L), roots |-> Roots(L),
            allmut |-> \A n \in Roots(L) : ~AnyConst(SrcOf(n).ty)] :
             L \in {x \in Basic \cup Mixed : ScopeOK(x)}, wf \in WriteForms}
          \* reference arguments of template instantiations: a full instantiation Q = TR(L), and partial instantiations that keep a
          \* parameter of their own, with L in the last / first argument position: Q(int &y) = TR2(y, L), Q(int &y) = TR2(L, y)
          \cup {[lv |-> L, wf |-> wf, const |-> ConstTarget(L), modifiable |-> ImplModifiable(L), roots |-> Roots(L),
                 allmut |-> \A n \in Roots(L) : ~AnyConst(SrcOf(n).ty)] :
-            L \in {x \in Basic : SrcOf(CHOOSE n \in Roots(x) : TRUE).where = "global"}, wf \in {"tmplref", "tmplref_partial_last", "tmplref_partial_first"}}
+            L \in {x \in Basic : SrcOf(CHOOSE n \in Roots(x) : TRUE).where = "global" /\ Roots(x) \cap NonInt = {}}, wf \in {"tmplref", "tmplref_partial_last", "tmplref_partial_first"}}
 
+Cases == {c \in RawCases : c.roots \cap NonInt = {} \/ (c.wf = "assign" /\ c.lv[1] = "id")}
 Sound == \A c \in Cases : c.const => ~c.modifiable
 TwinOK == \A c \in Cases : (\A n \in c.roots : ~AnyConst(SrcOf(n).ty)) => c.modifiable
 Export(file) == ndJsonSerialize(file, SetToSeq(Cases))
